@@ -537,8 +537,15 @@ def _solver(ctx, model):
     m, fn = model.func(f"{ALG}:solve_affine_equations_for")
     loc = m.loc(fn)
     # the loop over unknowns
-    loops = [lp for lp in ast.walk(fn) if isinstance(lp, ast.For)
-             and "enumerate(unknowns)" in ast.unparse(lp.iter)]
+    # = the outermost for loop that stores into the mapping the function returns
+    returned = {r.value.id for r in ast.walk(fn) if isinstance(r, ast.Return)
+                and isinstance(r.value, ast.Name)}
+
+    def stores_result(lp):
+        return any(isinstance(t, ast.Subscript) and isinstance(t.ctx, ast.Store)
+                   and isinstance(t.value, ast.Name) and t.value.id in returned
+                   for st in lp.body for t in ast.walk(st))
+    loops = [lp for lp in fn.body if isinstance(lp, ast.For) and stores_result(lp)]
     if len(loops) != 1:
         raise AnalysisError("solve_affine_equations_for: result loop not found")
     lp = loops[0]
@@ -616,8 +623,22 @@ def _solver(ctx, model):
     _solver_assembly(ctx, m, fn, loc)
     _solver_refusals(ctx, m, fn, lp, loc)
     # the key dispatch of the matrix assembly ends in a refusal
-    chains = [i for i in ast.walk(fn) if isinstance(i, ast.If)
-              and "unknowns_set" in ast.unparse(i.test)]
+    # (the if/elif chain on the key variable of the loop over a coefficient
+    # mapping's items)
+    chains = []
+    for lp_ in ast.walk(fn):
+        if isinstance(lp_, ast.For) and isinstance(lp_.iter, ast.Call) and \
+                isinstance(lp_.iter.func, ast.Attribute) and \
+                lp_.iter.func.attr == "items" and \
+                isinstance(lp_.target, ast.Tuple) and \
+                isinstance(lp_.target.elts[0], ast.Name):
+            kv = lp_.target.elts[0].id
+            chains += [i for i in lp_.body if isinstance(i, ast.If)
+                       and any(isinstance(n_, ast.Name) and n_.id == kv
+                               for n_ in ast.walk(i.test))]
+    if not chains:
+        raise AnalysisError("solve_affine_equations_for: dispatch on the "
+                            "coefficient key not found")
     ok = False
     for ch in chains:
         last = ch
